@@ -44,10 +44,12 @@ def _applicable(action, tmpl):
     if action in ("out_ec",):
         return t["type"] == "code" and bool(t.get("outputs")) and t["outputs"][-1].startswith("result")
     if action in ("rerun", "ec", "out_edit", "out_edit2", "out_clear", "out_add", "out_add2", "out_del",
-                  "out_ptr", "to_md", "out_add_front", "out_del_last"):
+                  "out_ptr", "to_md", "out_add_front", "out_del_last", "rerun2", "out_edit_add",
+                  "out_edit2_add2", "out_edit_md", "edit_rerun"):
         if t["type"] != "code":
             return False
-        if action in ("out_edit", "out_edit2", "out_del", "out_ptr", "out_del_last") and not t.get("outputs"):
+        if action in ("out_edit", "out_edit2", "out_del", "out_ptr", "out_del_last", "out_edit_add",
+                      "out_edit2_add2", "out_edit_md") and not t.get("outputs"):
             return False
     if action == "md_collapsed":
         return t["type"] == "code"
